@@ -234,6 +234,9 @@ func goOracle(base string, w world, k call, status int, b body, ob observed) str
 	if ob.Panicked {
 		return "the call panicked"
 	}
+	if !ob.ContentOK {
+		return "a returned element does not carry the text (user / display name / comment) the server sent for it"
+	}
 	valid := true
 	for _, o := range k.NOpts {
 		if o.Kind == 0 && (o.N < 1 || o.N > 10000) {
